@@ -536,6 +536,8 @@
 //!
 
 //public interface
+#[cfg(rusty_paseto_verif)]
+pub mod verif_hooks;
 #[cfg(feature = "core")]
 pub mod core;
 #[cfg(feature = "generic")]
